@@ -121,7 +121,7 @@ type Driver struct {
 	Workers  func(tier string) int
 	Budget   func(tier string) time.Duration
 	Assume   []string
-	Serial   bool // single worker only
+	Serial   bool                                       // single worker only
 	Env      func(workerDir string, shard int) []string // extra environment for the workers
 	PostProc func(merged *Result)
 }
@@ -264,6 +264,9 @@ func worker(d *Driver, tier string, shard, of int, out string) int {
 		}()
 		d.Run(c)
 	}()
+	for _, n := range UnreadableNotes() {
+		c.Res.Note("%s", n)
+	}
 	writeJSON(out, c.Res)
 	return 0
 }
